@@ -1,6 +1,7 @@
 package main
 
 import (
+	"go/token"
 	"fmt"
 	"go/types"
 	"sort"
@@ -543,6 +544,47 @@ func VerifyCover(P *Program, DB *ContractDB, cd *CoverDecl, prop string) *FuncRe
 
 // VerifyWrites enumerates every store to a field in the module: each must sit in
 // one of the listed functions, and the field's address must not escape.
+// VerifyNoWholeStore: every store of a whole value of the type goes into an
+// object allocated by the storing function itself.
+func VerifyNoWholeStore(P *Program, DB *ContractDB, nd *NoWholeStoreDecl, prop string) *FuncReport {
+	vc := NewVC(P, DB, nil, nil, prop)
+	vc.qname = "nowholestore " + nd.Type
+	rep := &FuncReport{Func: vc.qname}
+	n, loads := 0, 0
+	for _, name := range sortedKeys(P.Funcs) {
+		fn := P.Funcs[name]
+		for _, b := range fn.Blocks {
+			for _, in := range b.Instrs {
+				if u, ok := in.(*ssa.UnOp); ok && u.Op == token.MUL && typeKey(u.Type()) == nd.Type {
+					loads++
+				}
+				st, ok := in.(*ssa.Store)
+				if !ok {
+					continue
+				}
+				pt, ok := st.Addr.Type().Underlying().(*types.Pointer)
+				if !ok || typeKey(pt.Elem()) != nd.Type {
+					continue
+				}
+				n++
+				goal := "false"
+				if _, own := st.Addr.(*ssa.Alloc); own {
+					goal = "true"
+				}
+				vc.oblige("writes", fmt.Sprintf("%s/%s/whole-store[%s#%d]", prop, vc.qname, name, n), "a whole "+nd.Type+" is stored only into an object the function allocated itself", "true", goal, st.Pos(), true)
+			}
+		}
+	}
+	// the declaration names an existing type that the module handles
+	goal := "false"
+	if P.lookupNamedType(nd.Type) {
+		goal = "true"
+	}
+	vc.oblige("writes", fmt.Sprintf("%s/%s/type-exists", prop, vc.qname), fmt.Sprintf("the type exists (%d whole stores, %d whole loads in the module)", n, loads), "true", goal, 0, true)
+	rep.Obligations = vc.obls
+	return rep
+}
+
 func VerifyWrites(P *Program, DB *ContractDB, wd *WritesDecl, prop string) *FuncReport {
 	vc := NewVC(P, DB, nil, nil, prop)
 	vc.qname = fmt.Sprintf("writes (*%s).%s", wd.Recv, wd.Field)
